@@ -18,7 +18,7 @@ RULE = ("triples (X,Y,Z) per class (SO2, SE2, SO3, SE3, UnitQuaternion, Twist2, 
         "NumPy reference evaluation; structured inverses vs a 50-digit mpmath inverse; quaternions compared as rotations "
         "(sign-free), twists through the reference exponential. Non-trivial: a non-commuting pair and (|t|>1e3 or angle "
         "within 1e-6 of pi or |n|>=2 or depth>=3).")
-RULE = RULE + probes.RULE_TEXT + (probes.AUG_TEXT if PROPERTY_ID in probes.AUG_PROPS else "") + probes.VARIANT_TEXT
+RULE = RULE + probes.RULE_TEXT + (probes.AUG_TEXT if PROPERTY_ID in probes.AUG_PROPS else "") + probes.VARIANT_TEXT + probes.OWN_TEXT
 ASSUMPTIONS = ["tolerance 1e-9*max(1,|t|) with |t| the largest translation among operands, intermediates and result (1e-7 for twists)",
                "reference evaluation in float64 NumPy with transposed-rotation inverses; mpmath only for the inverse check"]
 
@@ -35,7 +35,10 @@ def spec(cname):
 def s_laws():
     return st.sampled_from(ALL).flatmap(lambda cn: st.fixed_dictionaries({
         "kind": st.just("laws"), "cls": st.just(cn), "X": spec(cn), "Y": spec(cn), "Z": spec(cn),
-        "n": st.integers(-8, 8)}))
+        "n": st.integers(-8, 8),
+        # geometric relation between the operands: independent, or rotations about parallel axes (same direction, different
+        # points - such motions do NOT commute), or about one common axis (these do)
+        "relate": st.sampled_from(["free", "free", "free", "parallel_axes", "same_axis"])}))
 
 
 def tree(nleaves, depth):
@@ -134,7 +137,7 @@ def tscale(cname, *Ms):
 
 
 def check_case(case):
-    if case.get("kind") in ("hist", "aug", "variant"):
+    if case.get("kind") in ("hist", "aug", "variant", "own"):
         return probes.run(case, PROPERTY_ID)
     return {"laws": _laws, "tree": _tree, "inverse": _inverse}[case["kind"]](case)
 
@@ -151,6 +154,19 @@ def _laws(case):
     tol = 1e-7 if twist else 1e-9
     c = Checker("laws", cls=cn, n=case["n"])
     sx, sy, sz = case["X"], case["Y"], case["Z"]
+    rel = case.get("relate", "free")
+    if rel != "free" and "rot" in sx:
+        import copy as _copy
+        sy, sz = _copy.deepcopy(sy), _copy.deepcopy(sz)
+        for s_ in (sy, sz):
+            s_["rot"] = dict(s_["rot"], axis=list(sx["rot"]["axis"]), via="rod")
+            s_["rot"].pop("noise", None)
+            if rel == "same_axis":
+                s_["t"] = [0.0, 0.0, 0.0]
+        if rel == "same_axis":
+            sx = dict(sx, t=[0.0, 0.0, 0.0])
+        if sx["rot"].get("via") == "cube":
+            sx = dict(sx, rot=dict(sx["rot"], via="rod"))
     if twist:
         MX, MY, MZ = (twist_ref(cn, s) for s in (sx, sy, sz))
     else:
@@ -314,7 +330,7 @@ def _noncommuting(case):
 
 
 def classify(case):
-    if case.get("kind") in ("hist", "aug", "variant"):
+    if case.get("kind") in ("hist", "aug", "variant", "own"):
         return probes.classify(case)
     k = case["kind"]
     lab = {"kind:" + k: True}
